@@ -189,6 +189,128 @@ def build_h3():
     return b
 
 
+# ------------------------------------------------------------------------------------------------ h4: build_evm (table swap + precompile registration)
+NP = 2      # custom precompiles (bound)
+
+
+def stubs4():
+    st = stubs()
+    unitv = lambda tr, c: c.ret(VUnit())
+
+    def build(tr, c):
+        d = c.dest()
+        tr.emit(f"{tr.lv(Loc(d.node.f('instruction'), d.idxs))} = 1; {tr.lv(Loc(d.node.f('precompiles'), d.idxs))} = 0; builds++;")
+
+    def with_precompiles(tr, c):
+        d = c.dest()
+        src = c.args[0].loc if isinstance(c.args[0], VLoc) else tr.deref(c.args[0])
+        tr.emit(f"{tr.lv(Loc(d.node.f('instruction'), d.idxs))} = {tr.lv(Loc(src.node.f('instruction'), src.idxs))};")
+        tr.store(Loc(d.node.f('precompiles'), d.idxs), c.args[1])
+
+    def ident(tr, c):
+        c.ret(c.args[0])
+
+    def from_spec(tr, c):
+        v = c.args[0]
+        loc = v.loc if isinstance(v, VLoc) else None
+        e = tr.lv(Loc(loc.node.discr, loc.idxs)) if loc is not None and loc.node.kind == "enum" else tr.as_scalar(v).expr
+        c.ret(VScalar(f"((unsigned char)(50 + {e}))", "unsigned char"))
+
+    def pc_new(tr, c):
+        """Precompiles::new(spec) -> &'static Precompiles: one static cell holding the spec tag"""
+        cell = tr._c12_pcs
+        tr.emit(f"{tr.lv(Loc(cell, []))} = {tr.as_scalar(c.args[0]).expr};")
+        c.ret(VRef(cell, []))
+
+    def from_static(tr, c):
+        c.ret(VScalar(tr.as_scalar(VLoc(tr.deref(c.args[0]))).expr, "unsigned char"))
+
+    def gravity(tr, c):
+        v = c.args[0]
+        loc = v.loc if isinstance(v, VLoc) else None
+        e = tr.lv(Loc(loc.node.discr, loc.idxs)) if loc is not None and loc.node.kind == "enum" else tr.as_scalar(v).expr
+        tr.emit("gravity_calls++;")
+        c.ret(VScalar(f"((unsigned char)(100 + {e}))", "unsigned char"))
+
+    def to_alloy(tr, c):
+        c.ret(VScalar(f"((unsigned char)(200 + {tr.as_scalar(VLoc(tr.deref(c.args[0]))).expr}))", "unsigned char"))
+
+    def apply(tr, c):
+        a = tr.as_scalar(VLoc(tr.deref(c.args[1]))).expr
+        cl = c.args[2]
+        if isinstance(cl, VAgg):
+            cap = tr.as_scalar(cl.fields[0]).expr
+        else:
+            loc = cl.loc if isinstance(cl, VLoc) else tr.deref(cl)
+            cap = tr.lv(Loc(loc.node.fields[0], loc.idxs))
+        tr.emit(f"if (applied_n < {NP}) {{ applied_addr[applied_n] = {a}; applied_src[applied_n] = {cap}; }} applied_n++;")
+    st.update({"<Context as MainContext>::mainnet": unitv, "Context::with_db": unitv, "Context::with_cfg": unitv, "Context::with_block": unitv,
+               "<Context as MainBuilder>::build_mainnet_with_inspector": build, "PrecompileSpecId::from_spec_id": from_spec, "Precompiles::new": pc_new,
+               "PrecompilesMap::from_static": from_static, "Evm::with_precompiles": with_precompiles, "gravity_instructions": gravity,
+               "DynParallelPrecompile::to_alloy": to_alloy, "PrecompilesMap::apply_precompile": apply})
+    return st
+
+
+def t_evm(tr, ty, name, dims, storage, g=None):
+    """revm-context Evm { ctx, inspector, instruction, precompiles, frame_stack }: the instruction table and the precompile set are tags"""
+    from translate import UnitN, ScalarN
+    s_ = StructN(ty, name, dims, storage)
+    for f, k in (("ctx", "u"), ("inspector", "u"), ("instruction", "s"), ("precompiles", "s"), ("frame_stack", "u")):
+        s_.fields.append(UnitN(None, f"{name}_{f}", dims, storage) if k == "u" else ScalarN(None, f"{name}_{f}", dims, storage, "unsigned char"))
+        s_.names.append(f)
+    return s_
+
+
+def cfg4():
+    c = cfg(False)
+    ov = c["type_overrides"]
+    ov.pop("CfgEnv", None)          # the real field list (spec is read from it)
+    ov["SPEC"] = ov["SpecId"]
+    ov["Evm"] = t_evm
+    for k in ("Context", "BlockEnv", "NoOpInspector", "GasParams", "EthPrecompiles", "EthFrame", "FrameStack", "DB"):
+        ov[k] = revm_types.unit
+    for k in ("EthInstructions", "PrecompilesMap", "Precompiles", "PrecompileSpecId", "DynParallelPrecompile", "DynPrecompile"):
+        ov[k] = revm_types.scalar("unsigned char")
+    c["stubs"] = stubs4()
+    c["cap"] = NP
+    c["loops"] = {"build_evm": {"*": (NP + 1, "assert")}}
+    return c
+
+
+def build_h4():
+    def b(tr):
+        H = hz.Harness(tr, "c12_h4")
+        for nm in ("builds", "gravity_calls", "applied_n", "spec_id"):
+            H.cvar(nm, "unsigned char", shared=False)
+        H.cvar("applied_addr", "unsigned char", dims=[NP], shared=False); H.cvar("applied_src", "unsigned char", dims=[NP], shared=False)
+        H.cvar("forbid", "_Bool", shared=False)
+        nspec = len(c07.spec_order())
+        H.c(f"builds = 0; gravity_calls = 0; applied_n = 0; forbid = nondet_bool(); spec_id = nondet_uchar(); __CPROVER_assume(spec_id < {nspec});")
+        db = H.local("db", "DB"); blk = H.local("blk", "BlockEnv")
+        tr._c12_pcs = H.local("pcs_static", "Precompiles")
+        cf = H.local("cf", "CfgEnv")
+        H.c(f"{H.lv(cf, 'spec.d')} = spec_id;")
+        lst = H.local("customs", "Vec<(Address, DynParallelPrecompile)>")
+        H.c(f"{H.lv(lst, 'len')} = nondet_usize(); __CPROVER_assume({H.lv(lst, 'len')} <= {NP});")
+        for k in range(NP):
+            H.c(f"{H.lv(lst, 'e.0', [k])} = nondet_uchar(); __CPROVER_assume({H.lv(lst, 'e.0', [k])} < {NA}); {H.lv(lst, 'e.1', [k])} = nondet_uchar(); __CPROVER_assume({H.lv(lst, 'e.1', [k])} < 20);")
+        evm = H.local("evm", "Evm<CTX, INSP, I, P, F>")
+        H.call("build_evm", [VLoc(Loc(db, [])), VLoc(Loc(cf, [])), VLoc(Loc(blk, [])), H.ref(lst), H.val("forbid", "_Bool")], evm)
+        pr = c07.spec_order().index("PRAGUE")
+        H.assert_(f"{H.lv(evm, 'instruction')} == ((forbid && spec_id >= {pr}) ? (unsigned char)(100 + spec_id) : 1)",
+                  "the instruction table is the guarded one (built for the block's spec) iff the guard is requested and the spec is Prague or later; otherwise revm's mainnet table untouched")
+        H.assert_(f"gravity_calls == ((forbid && spec_id >= {pr}) ? 1 : 0) && builds == 1", "one EVM is built; the guarded table is constructed only when it is installed")
+        H.assert_(f"{H.lv(evm, 'precompiles')} == (unsigned char)(50 + spec_id)", "the standard precompile set is the one of the block's spec")
+        H.assert_(f"applied_n == {H.lv(lst, 'len')}", "every custom precompile is registered exactly once")
+        for k in range(NP):
+            H.assert_(f"!({k} < {H.lv(lst, 'len')}) || (applied_addr[{k}] == {H.lv(lst, 'e.0', [k])} && applied_src[{k}] == (unsigned char)(200 + {H.lv(lst, 'e.1', [k])}))",
+                      f"custom precompile {k} is registered at its own address through the to_alloy adapter of its own implementation, in list order")
+        H.cover(f"{H.lv(evm, 'instruction')} != 1 && applied_n == 2", "guarded table with two custom precompiles")
+        H.cover(f"forbid && spec_id < {pr}", "guard requested before Prague")
+        return H
+    return b
+
+
 def specs(tier):
     return [
         Spec("h1_guard_create", build_h1(False), cfg=cfg(False), unwind=3, timeout=1800,
@@ -197,4 +319,7 @@ def specs(tier):
              desc="real guarded_create::<true> (CREATE2) decision table", bounds={"addresses": NA, "forks": "all"}),
         Spec("h3_for_spec", build_h3(), cfg=cfg(False), unwind=3, timeout=1800,
              desc="real DelegatedSafetyConfig::for_spec for every fork and flag pair", bounds={"forks": "all"}),
+        Spec("h4_build_evm", build_h4(), cfg=cfg4(), unwind=NP + 2, timeout=1800,
+             desc="real build_evm: instruction table swapped iff guard requested and spec >= Prague; standard precompiles of the spec; every custom precompile registered once at its address via to_alloy (revm builder chain = tagging ghosts)",
+             bounds={"forks": "all", "custom_precompiles": NP, "addresses": NA}),
     ]
